@@ -446,13 +446,22 @@ func LibScript(b []byte, salt int) *bscript.Script {
 // The label names the way. Content is the same in all of them except that parsing and cloning
 // turn a nil unlocking script into an empty one.
 func ToLibVia(m Tx) (*bt.Tx, string) {
+	return ToLibViaSalt(m, len(m.In)*3+len(m.Out)+int(m.LockTime%11)+int(m.Version%2))
+}
+
+// ToLibViaSalt is ToLibVia with the way chosen by the caller's salt (for models whose shape is
+// the same in every case).
+func ToLibViaSalt(m Tx, salt int) (*bt.Tx, string) {
 	tx := ToLib(m)
 	for _, in := range m.In {
 		if len(in.TxID) != 32 {
 			return tx, "built"
 		}
 	}
-	switch (len(m.In)*3 + len(m.Out) + int(m.LockTime%11) + int(m.Version%2)) % 4 {
+	if salt < 0 {
+		salt = -salt
+	}
+	switch salt % 4 {
 	case 1:
 		return tx.Clone(), "cloned"
 	case 2:
